@@ -1,4 +1,6 @@
 import SelenModel.Lemmas.FloatLin
+import SelenModel.Lemmas.FloatEngine
+import SelenModel.Lemmas.FloatTermination
 /-
 C07 — "If a model over float or mixed variables has an assignment that satisfies every inequality
 with a margin well above the float step (and every equality exactly at a representable point), and
@@ -21,10 +23,19 @@ The true constant (found, then proved):
 * Without margin and off the grid the statement is FALSE for the code:
   `C07_floatlin_le_zero_margin_counterexample`.
 
+* the SEARCH (`Model/FloatEngine.lean`, second half of the file): `C07_solve_not_infeasible` — a
+  witness on the step grid that every propagator keeps is never lost by the branching, so the search
+  does not answer "no solution" (any fuel, any pop policy); off the grid the branching drops a whole
+  open interval (`C07_branching_gap_counterexample`); the bisection does NOT always terminate
+  (`C07_bisection_terminates_counterexample`, finding `float-split-half-step-no-progress`), it does
+  on grid stores with depth fuel `2·fsize + 1` (`C07_bisection_terminates_partial`), whence
+  `C07_solve_finds_assignment`.
+
 NOT covered: IEEE rounding (the same definitions at `Float` are bit-exactly the code, suite
 `float`; its exact-arithmetic oracle checks the margin statement on the real code with the margin
-`4·step·Σ|cᵢ| + 2⁻⁴⁰·magnitude`), the search above propagation, and the other float paths of
-`solve` (root LP, optimisation) — those are exercised by the API-level oracle stream `#flapi`.
+`4·step·Σ|cᵢ| + 2⁻⁴⁰·magnitude`), a bound for the step budget of one propagation, and the other
+float paths of `solve` (root LP, optimisation) — those are exercised by the API-level oracle stream
+`#flapi`.
 -/
 namespace Selen
 namespace C07
@@ -197,6 +208,181 @@ example : ∃ (a σ : Nat → Rat) (c : FCtx Rat), FMem c.st a σ ∧ dot a [2, 
     | 0, h => simp at h; obtain ⟨rfl, rfl⟩ := h; decide +kernel
     | 1, h => simp at h; obtain ⟨rfl, rfl⟩ := h; decide +kernel
     | k + 2, h => simp at h
+
+/-! ### the search (end to end)
+
+Model: `Model/FloatEngine.lean`.  The branching rule of the code is `pivot <= mid` / `pivot >= mid`
+for a float pivot (`Next(ValF mid)` is `mid`): the two branches OVERLAP in `mid`, but
+`try_set_max(mid)` rounds the new maximum DOWN and `try_set_min(mid)` rounds the new minimum UP to
+the step grid counted from zero, so that when `mid` (= `min + k·step`) is not on that grid the open
+interval between the two neighbouring grid points is dropped by both branches.  Witnesses ON the
+grid are always kept by one of the two branches (`branch_keeps`); for them no margin at all is
+needed (`Protected.le` with `μ = 0`). -/
+
+/-- a protected row keeps the witness -/
+theorem keeps_of_protected (κ : Nat → Bool) (a σ : Nat → Rat) (k : FPK Rat) (hp : Protected a σ k) : Keeps κ a σ k :=
+  fun c hw => C07_floatlin_sound_margin a σ k hp c hw.1
+
+/-- **C07 (search, end to end).**  Let the witness `a` lie in the declared store (`WitIn`: inside
+every float interval, an element of every integer domain), let its float coordinates be grid points
+`z·step` (`GridWit`), and let every posted propagator keep it (`Keeps`; for `FloatLinLe` /
+`FloatLinEq` rows: `Protected`, i.e. the margin / exactness hypothesis of
+`C07_floatlin_sound_margin`, where a grid witness needs NO margin).  Then for every pop policy and
+all fuels the search does not answer "no solution": it returns an assignment or runs out of fuel. -/
+theorem C07_solve_not_infeasible (n : Nat) (κ : Nat → Bool) (pol : Policy) (pf fuel : Nat)
+    (ps : List (FPK Rat)) (st0 : FStore Rat) (a σ : Nat → Rat)
+    (hw : WitIn κ a σ st0) (hgrid : GridWit κ a σ) (hk : ∀ k ∈ ps, Keeps κ a σ k) :
+    fsolve n pol pf fuel ps st0 ≠ .nosol := by
+  simp only [fsolve]
+  have := fpropagate_keeps n ps pol (WitIn κ a σ) (fun k hk' c hc => (hk k hk').witIn c hc)
+    pf (List.range ps.length) st0 0 hw
+  cases hp : fpropagate n ps pol pf (List.range ps.length) st0 0 with
+  | fail => rw [hp] at this; exact absurd this id
+  | fuel => simp
+  | ok st' pc1 =>
+    rw [hp] at this
+    simp only
+    cases hu : ffirstUnassigned n st' with
+    | none => simp
+    | some q =>
+      simp only
+      rcases (search_not_nosol n κ a σ hgrid pol pf fuel).1 ps st' pc1 0 hk this with h | h
+      · exact h
+      · rw [hu] at h; cases h
+
+/-- the same for models of protected rows -/
+theorem C07_solve_not_infeasible_rows (n : Nat) (κ : Nat → Bool) (pol : Policy) (pf fuel : Nat)
+    (ps : List (FPK Rat)) (st0 : FStore Rat) (a σ : Nat → Rat)
+    (hw : WitIn κ a σ st0) (hgrid : GridWit κ a σ) (hk : ∀ k ∈ ps, Protected a σ k) :
+    fsolve n pol pf fuel ps st0 ≠ .nosol :=
+  C07_solve_not_infeasible n κ pol pf fuel ps st0 a σ hw hgrid (fun k hk' => keeps_of_protected κ a σ k (hk k hk'))
+
+/-- is the float `m` the value `Var::mid` returns -/
+def midIsF (v : FVar Rat) (m : Rat) : Bool :=
+  match v.mid with
+  | some (.f r) => decide (r = m)
+  | _ => false
+
+theorem mid_of_midIsF (v : FVar Rat) (m : Rat) (h : midIsF v m = true) : v.mid = some (.f m) := by
+  simp only [midIsF] at h
+  split at h
+  · rename_i r hr; rw [hr, of_decide_eq_true h]
+  · cases h
+
+/-- is `w` inside the interval of variable `i` after running the propagator -/
+def keptBy (k : FPK Rat) (st : FStore Rat) (i : Nat) (w : Rat) : Bool :=
+  keptAfter (k.prune { st := st, ev := [] }) i w
+
+/-- **counterexample** (off the grid the branching loses points): `x ∈ [1/2, 5/2]`, step `1`,
+`mid = 3/2`; the point `x = 3/2` itself — inside the bounds, equal to `mid` — is removed by the left
+branch (new maximum `1`) AND by the right branch (new minimum `2`). -/
+theorem C07_branching_gap_counterexample :
+    let st : FStore Rat := fun _ => .flt { min := 1/2, max := 5/2, step := 1 }
+    midIsF (st 0) (3/2) = true ∧
+    keptBy (branchL 0 (.f (3/2))) st 0 (3/2) = false ∧ keptBy (branchR 0 (.f (3/2))) st 0 (3/2) = false := by
+  refine ⟨?_, ?_, ?_⟩ <;> decide +kernel
+
+/-- … while grid points are kept by the branch they belong to (non-vacuity of `branch_keeps`) -/
+example :
+    let st : FStore Rat := fun _ => .flt { min := 1/2, max := 5/2, step := 1 }
+    keptBy (branchL 0 (.f (3/2))) st 0 1 = true ∧ keptBy (branchR 0 (.f (3/2))) st 0 2 = true := by
+  refine ⟨?_, ?_⟩ <;> decide +kernel
+
+/-! ### termination of the float bisection
+
+`step_count` does NOT always decrease along a branch: `try_set_max(mid)` is a no-op whenever
+`mid ≥ max − step/2`, and for an interval of width exactly `1.5·step` (not "fixed":
+`round(1.5) = 2`) the midpoint is `min + step = max − step/2`.  The left branch then returns the
+same store, the same split is made again, and so on: the search never ends (finding
+`float-split-half-step-no-progress`; on the real code `Model::float(0.05, 0.2)` with precision 1,
+or `float(5e-7, 2e-6)` with the default precision, makes `solve()` hang, the timeout is ignored). -/
+
+/-- did the propagator succeed without raising an event -/
+def stableAt (k : FPK Rat) (st : FStore Rat) : Bool :=
+  match k.prune { st := st, ev := [] } with
+  | some c' => c'.ev.isEmpty
+  | none => false
+
+theorem fstable_of_stableAt (k : FPK Rat) (st : FStore Rat) (h : stableAt k st = true) : FStable k st := by
+  simp only [stableAt] at h
+  cases hp : k.prune { st := st, ev := [] } with
+  | none => rw [hp] at h; cases h
+  | some c' => rw [hp] at h; exact ⟨c', hp, by simpa using h⟩
+
+/-- **counterexample** (the bisection does not terminate): `x ∈ [0, 3/2]`, step `1`.  The variable is
+not assigned, `mid = 1`, the left branch `x <= 1` changes nothing; hence for EVERY fuel, with or
+without further (stable) propagators, the search ends out of fuel. -/
+theorem C07_bisection_terminates_counterexample (pol : Policy) (pf fuel : Nat) (ps : List (FPK Rat)) (pc nc : Nat) :
+    let st : FStore Rat := fun _ => .flt { min := 0, max := 3/2, step := 1 }
+    fexplore 1 pol pf fuel ps st pc nc = .fuel ∨ fexplore 1 pol pf fuel ps st pc nc = .pfuel := by
+  intro st
+  exact fexplore_diverges 1 pol pf st 0 (.f 1) (by decide +kernel) (mid_of_midIsF _ _ (by decide +kernel))
+    (fstable_of_stableAt _ _ (by decide +kernel)) fuel ps pc nc
+
+/-- … and so does `fsolve` on that model -/
+theorem C07_solve_diverges_counterexample (pol : Policy) (pf fuel : Nat) :
+    fsolve 1 pol (pf + 1) fuel [] (fun _ => .flt { min := 0, max := 3/2, step := 1 } : FStore Rat) = .fuel ∨
+    fsolve 1 pol (pf + 1) fuel [] (fun _ => .flt { min := 0, max := 3/2, step := 1 } : FStore Rat) = .pfuel := by
+  have h0 : fpropagate 1 ([] : List (FPK Rat)) pol (pf + 1) (List.range ([] : List (FPK Rat)).length)
+      (fun _ => .flt { min := 0, max := 3/2, step := 1 }) 0 = .ok (fun _ => .flt { min := 0, max := 3/2, step := 1 }) 0 := by
+    simp [fpropagate, Policy.pick]
+  have hu : ffirstUnassigned 1 (fun _ => .flt { min := 0, max := 3/2, step := 1 } : FStore Rat) = some 0 := by decide +kernel
+  simp only [fsolve, h0, hu]
+  exact C07_bisection_terminates_counterexample pol (pf + 1) fuel [] 0 0
+
+/-- **C07 (termination of the bisection, partial).**  On stores whose float intervals have both
+ends on the step grid (`GridK`: `min = k·step`, `max = l·step`; integer domains non-empty and
+duplicate-free) and with propagators that keep the grid and only shrink (`GridShrinks`; proved for
+`FloatLinLe`, `FloatLinEq`: `gridShrinks_linLe/linEq`, and for the branching constraints), every
+branch strictly decreases the number of steps of the pivot (`branch_cuts`), so the depth fuel
+`2·fsize n st0 + 1` — `fsize` = Σ over the decision variables of `(max − min)/step` resp. of the
+number of values — is never exhausted and `FloatInterval::mid` never hits its assertion.  (A single
+propagation may still exhaust its own step budget `pf`: reported as `.pfuel`.) -/
+theorem C07_bisection_terminates_partial (n : Nat) (κ : Nat → Bool) (pol : Policy) (pf fuel : Nat)
+    (ps : List (FPK Rat)) (st0 : FStore Rat)
+    (hsh : ∀ k ∈ ps, GridShrinks κ k) (hg : GridK κ st0) (hfuel : 2 * fsize n st0 + 1 ≤ fuel) :
+    fsolve n pol pf fuel ps st0 ≠ .fuel ∧ fsolve n pol pf fuel ps st0 ≠ .panic :=
+  fsolve_depth_bound n κ pol pf fuel ps st0 hsh hg hfuel
+
+/-- **C07 (end to end, grid models).**  A model on the grid with a grid witness that every row
+protects, run with depth fuel `2·fsize + 1`: the search returns an assignment (or one of its
+propagations exhausted the step budget `pf`) — never "no solution", never out of depth. -/
+theorem C07_solve_finds_assignment (n : Nat) (κ : Nat → Bool) (pol : Policy) (pf fuel : Nat)
+    (ps : List (FPK Rat)) (st0 : FStore Rat) (a σ : Nat → Rat)
+    (hg : GridK κ st0) (hsh : ∀ k ∈ ps, GridShrinks κ k) (hfuel : 2 * fsize n st0 + 1 ≤ fuel)
+    (hw : WitIn κ a σ st0) (hgrid : GridWit κ a σ) (hk : ∀ k ∈ ps, Protected a σ k) :
+    (∃ leaf pc nc, fsolve n pol pf fuel ps st0 = .sol leaf pc nc) ∨ fsolve n pol pf fuel ps st0 = .pfuel := by
+  have h1 := C07_solve_not_infeasible_rows n κ pol pf fuel ps st0 a σ hw hgrid hk
+  have h2 := C07_bisection_terminates_partial n κ pol pf fuel ps st0 hsh hg hfuel
+  cases hr : fsolve n pol pf fuel ps st0 with
+  | sol leaf pc nc => exact Or.inl ⟨leaf, pc, nc, rfl⟩
+  | nosol => exact absurd hr h1
+  | fuel => exact absurd hr h2.1
+  | pfuel => exact Or.inr rfl
+  | panic => exact absurd hr h2.2
+
+/-- the hypotheses of the two theorems are satisfiable: `x ∈ [0, 2]`, step `1/4` (`k = 0`, `l = 8`,
+`fsize = 8`), row `x ≤ 3/4`, witness `x = 1/2` (grid point, no margin needed) -/
+example : ∃ (κ : Nat → Bool) (st0 : FStore Rat) (a σ : Nat → Rat),
+    GridK κ st0 ∧ GridShrinks κ (.linLe [1] [0] (3/4)) ∧ fsize 1 st0 = 8 ∧
+    WitIn κ a σ st0 ∧ GridWit κ a σ ∧ Protected a σ (.linLe [1] [0] (3/4)) := by
+  refine ⟨fun _ => true, fun _ => .flt { min := 0, max := 2, step := 1/4 }, fun _ => 1/2, fun _ => 1/4, ?_, ?_, ?_, ?_, ?_, ?_⟩
+  · intro x
+    exact ⟨rfl, by decide +kernel, 0, 8, by decide, by decide +kernel, by decide +kernel⟩
+  · exact gridShrinks_linLe _ _ _ _
+  · decide +kernel
+  · refine ⟨fun x => ⟨rfl, by decide +kernel, (by decide +kernel : (0 : Rat) ≤ 1/2), (by decide +kernel : (1/2 : Rat) ≤ 2)⟩, fun x => rfl⟩
+  · intro x _; exact ⟨2, (by decide +kernel : (1/2 : Rat) = ((2 : Int) : Rat) * (1/4))⟩
+  · refine Protected.le [1] [0] (3/4) 0 (by decide +kernel) (by simp only [dot]; decide +kernel) ?_
+    intro k ck xk _
+    exact Or.inr ⟨2, (by decide +kernel : (1/2 : Rat) = ((2 : Int) : Rat) * (1/4))⟩
+
+/-- … and on that model the search does return an assignment (`x = 0`) -/
+example : (match fsolve 1 Policy.fifo 100 17 [FPK.linLe ([1] : List Rat) [0] (3/4)]
+      (fun _ => .flt { min := 0, max := 2, step := 1/4 } : FStore Rat) with
+    | .sol leaf _ _ => decide ((FPK.boundsF leaf 0).1 = 0)
+    | _ => false) = true := by
+  decide +kernel
 
 end C07
 end Selen
